@@ -722,3 +722,621 @@ func runC06Reset(c *Ctx) {
 		c.Errorf("only %d UnmarshalJSON/Scan methods with pointer receivers found, expected >= 12", n)
 	}
 }
+
+func init() {
+	register(&Rule{
+		ID:    "C11.enqueue",
+		Props: []string{"C11", "C09"},
+		Doc:   "PrioritySearch expands a node by pushing exactly its entries 0..numEntries-1 onto the queue, each once, identified by position: the node-expansion step (the closure of PrioritySearch, or the helper it calls, that calls heap.Push) interpreted for numEntries = 0..4 pushes &entries[0] … &entries[numEntries-1] and nothing else — slots beyond numEntries hold stale or zero data, and a slot must not be skipped because of its content (a record with ID 0 and a degenerate box at the origin is a valid entry)",
+		Floor: 1,
+		Run:   runC11Enqueue,
+	})
+}
+
+func runC11Enqueue(c *Ctx) {
+	ps := c.P.Func("rtree.(*RTree).PrioritySearch")
+	if ps == nil {
+		c.Errorf("anchor rtree.(*RTree).PrioritySearch does not resolve")
+		return
+	}
+	callsPush := func(g *ssa.Function) bool {
+		found := false
+		eachCall(g, func(ci ssa.CallInstruction) {
+			if calleeName(ci) == "container/heap.Push" {
+				found = true
+			}
+		})
+		return found
+	}
+	var step *ssa.Function
+	for _, an := range ps.AnonFuncs {
+		if callsPush(an) {
+			step = an
+		}
+	}
+	if step == nil {
+		eachCall(ps, func(ci ssa.CallInstruction) {
+			if cal := staticCallee(ci); cal != nil && cal.Blocks != nil && pkgOf(cal) == "rtree" && callsPush(cal) && step == nil {
+				step = cal
+			}
+		})
+	}
+	if step == nil {
+		c.Errorf("anchor: the node-expansion step of PrioritySearch (the function calling heap.Push) does not resolve")
+		return
+	}
+	// the *node parameter, and the layout of node
+	nodeIdx := -1
+	for i, p := range step.Params {
+		if pt, ok := p.Type().(*types.Pointer); ok {
+			if st, ok := pt.Elem().Underlying().(*types.Struct); ok {
+				for k := 0; k < st.NumFields(); k++ {
+					if _, isArr := st.Field(k).Type().Underlying().(*types.Array); isArr {
+						nodeIdx = i
+					}
+				}
+			}
+		}
+	}
+	if nodeIdx < 0 {
+		c.Errorf("anchor: %s has no *node parameter", FuncName(step))
+		return
+	}
+	nodeT := deref(step.Params[nodeIdx].Type()).Underlying().(*types.Struct)
+	fEntries, fNum := "", ""
+	for i := 0; i < nodeT.NumFields(); i++ {
+		switch t := nodeT.Field(i).Type().Underlying().(type) {
+		case *types.Array:
+			fEntries = canonFieldName(nodeT.Field(i))
+		case *types.Basic:
+			if t.Info()&types.IsInteger != 0 {
+				fNum = canonFieldName(nodeT.Field(i))
+			}
+		}
+	}
+	problem, undec := "", ""
+	for n := 0; n <= 4 && problem == "" && undec == ""; n++ {
+		m := &Model{Num: map[string]float64{"N." + fNum: float64(n)}, Bool: map[string]bool{}, Missing: map[string]bool{}}
+		it := &k4interp{p: c.P, m: m, mem: map[string]k4val{}}
+		var pushed []string
+		it.onOpaque = func(name string, args []k4val) {
+			if name == "container/heap.Push" && len(args) == 2 {
+				pushed = append(pushed, args[1].String())
+			}
+		}
+		// entries compare unequal to the zero entry unless the model says otherwise:
+		// a content-based skip would need such a comparison
+		it.answer = func(key string, isBool bool) (k4val, bool) {
+			if isBool {
+				return k4val{kind: 1, b: true}, true // any content test "is this slot unused?" answers yes
+			}
+			return k4val{}, false
+		}
+		var args []k4val
+		for i, p := range step.Params {
+			if i == nodeIdx {
+				args = append(args, k4val{kind: 3, s: "N"})
+			} else {
+				args = append(args, k4val{kind: 3, s: "arg:" + p.Name()})
+			}
+		}
+		var fvs []k4val
+		for _, fv := range step.FreeVars {
+			fvs = append(fvs, k4val{kind: 3, s: "fv:" + fv.Name()})
+		}
+		if _, err := it.call(step, args, fvs); err != nil {
+			undec = fmt.Sprintf("%v %s", err, missingList(m))
+			break
+		}
+		var want []string
+		for i := 0; i < n; i++ {
+			want = append(want, fmt.Sprintf("N.%s[%d]", fEntries, i))
+		}
+		if strings.Join(pushed, " ") != strings.Join(want, " ") {
+			problem = fmt.Sprintf("for a node with %d entries the step pushes [%s], expected [%s] (when every content test on a slot is answered 'looks unused')", n, strings.Join(pushed, " "), strings.Join(want, " "))
+		}
+	}
+	reportK4(c, step, "node expansion", undec, problem, "pushes exactly &entries[0..numEntries-1], independent of the entries' content, for numEntries = 0..4")
+}
+
+func init() {
+	register(&Rule{
+		ID:    "C05.empty",
+		Props: []string{"C05", "C20"},
+		Doc:   "EMPTY at every level of WKT: the parenthesised coordinate list of a sequence is written (appendWKTSequence) only under a dominating test that the very object owning that sequence is not empty (its IsEmpty() is false, or its sequence length is non-zero) — a member writer that skips the test emits `()` for an empty ring or line, which is outside the grammar and does not re-parse",
+		Floor: 1,
+		Run:   runC05Empty,
+	})
+}
+
+func runC05Empty(c *Ctx) {
+	n := 0
+	for _, f := range c.P.Funcs {
+		if pkgOf(f) != "geom" {
+			continue
+		}
+		fn := FuncName(f)
+		for _, call := range callsTo(f, "geom.appendWKTSequence") {
+			n++
+			seq := call.Common().Args[1]
+			owner, _ := accessPath(seq)
+			// the owner of the sequence: strip a trailing field selection (.seq)
+			ownerObj := owner
+			if i := strings.LastIndex(ownerObj, "."); i > 0 {
+				ownerObj = ownerObj[:i]
+			}
+			ok := false
+			for _, g := range guardsAt(call) {
+				switch x := g.Cond.(type) {
+				case *ssa.Call:
+					cal := staticCallee(x)
+					if cal == nil || cal.Name() != "IsEmpty" || g.Truth {
+						continue
+					}
+					rs, _ := accessPath(x.Call.Args[0])
+					if rs == ownerObj || rs == owner {
+						ok = true
+					}
+				case *ssa.BinOp:
+					// seq.Length() == 0 is false / > 0 is true
+					if lc, isCall := x.X.(*ssa.Call); isCall {
+						if cal := staticCallee(lc); cal != nil && cal.Name() == "Length" {
+							rs, _ := accessPath(lc.Call.Args[0])
+							k, isC := constInt(x.Y)
+							if rs == owner && isC && k == 0 && ((x.Op == token.EQL && !g.Truth) || (x.Op == token.NEQ && g.Truth) || (x.Op == token.GTR && g.Truth)) {
+								ok = true
+							}
+						}
+					}
+				}
+			}
+			c.Check(ok, call.Pos(), fn, "coordinate list of "+trunc(owner), "written only when "+trunc(ownerObj)+" is known to be non-empty", "the parenthesised list of "+owner+" is written without a dominating test that "+ownerObj+" is not empty: an empty member is emitted as `()` instead of EMPTY")
+		}
+	}
+	if n < 1 {
+		c.Errorf("no appendWKTSequence call found")
+	}
+}
+
+func init() {
+	register(&Rule{
+		ID:    "C14.pairing",
+		Props: []string{"C14", "C20"},
+		Doc:   "weighted means accumulate numerator and denominator together: in every centroid routine, each basic block that adds a term to an XY accumulator (sum = sum.Add(term)) also adds that term's weight to a scalar accumulator (n++, total += w), and vice versa — a weight counted where no term is added (e.g. counting empty points, or hoisting the count out of the guarded loop body) shifts the mean towards the origin",
+		Floor: 6,
+		Run:   runC14Pairing,
+	})
+}
+
+// accumulates: instruction `in` computes acc' = acc (+) term where acc is a
+// cell (captured variable / local) that receives the result, or a loop phi that
+// the result flows back into.
+func accumulates(in ssa.Instruction, acc ssa.Value, res ssa.Value) bool {
+	switch a := acc.(type) {
+	case *ssa.UnOp:
+		if a.Op != token.MUL {
+			return false
+		}
+		for _, r := range *res.Referrers() {
+			if st, ok := r.(*ssa.Store); ok && st.Val == res && sameAddr(st.Addr, a.X, 0) {
+				return true
+			}
+		}
+	case *ssa.Phi:
+		seen := map[ssa.Value]bool{}
+		var flows func(v ssa.Value, d int) bool
+		flows = func(v ssa.Value, d int) bool {
+			if d > 4 || seen[v] {
+				return false
+			}
+			seen[v] = true
+			for _, r := range *v.Referrers() {
+				if p, ok := r.(*ssa.Phi); ok {
+					if p == a || flows(p, d+1) {
+						return true
+					}
+				}
+			}
+			return false
+		}
+		return flows(res, 0)
+	}
+	return false
+}
+
+func runC14Pairing(c *Ctx) {
+	n := 0
+	for _, f := range c.P.Funcs {
+		if pkgOf(f) != "geom" || !strings.Contains(strings.ToLower(FuncName(f)), "centroid") {
+			continue
+		}
+		fn := FuncName(f)
+		sumBlocks := map[*ssa.BasicBlock]token.Pos{}
+		wBlocks := map[*ssa.BasicBlock]token.Pos{}
+		eachInstr(f, func(in ssa.Instruction) {
+			switch x := in.(type) {
+			case *ssa.Call:
+				if calleeName(x) == "geom.(XY).Add" && len(x.Call.Args) == 2 {
+					if accumulates(x, x.Call.Args[0], x) || accumulates(x, x.Call.Args[1], x) {
+						sumBlocks[x.Block()] = x.Pos()
+					}
+				}
+			case *ssa.BinOp:
+				if x.Op == token.ADD && isNumeric(x.Type()) {
+					if accumulates(x, x.X, x) || accumulates(x, x.Y, x) {
+						// loop counters (i++) are not weights: skip induction variables used in the loop test
+						if isLoopCounter(x) {
+							return
+						}
+						wBlocks[x.Block()] = x.Pos()
+					}
+				}
+			}
+		})
+		if len(sumBlocks) == 0 {
+			continue
+		}
+		n++
+		both := false
+		for b := range sumBlocks {
+			if _, ok := wBlocks[b]; ok {
+				both = true
+			}
+		}
+		if !both {
+			c.Triv(f.Pos(), fn, "numerator/denominator in lock step", "two-pass form: the weights are totalled in a separate pass and every term is pre-normalised; pairing does not apply")
+			continue
+		}
+		bad := ""
+		for b, pos := range sumBlocks {
+			if _, ok := wBlocks[b]; !ok {
+				bad = "a term is added to the XY sum at " + c.P.Pos(pos) + " but no weight is accumulated on the same path"
+			}
+		}
+		for b, pos := range wBlocks {
+			if _, ok := sumBlocks[b]; !ok {
+				bad = "a weight is accumulated at " + c.P.Pos(pos) + " where no term is added to the XY sum"
+			}
+		}
+		c.Check(bad == "", f.Pos(), fn, "numerator/denominator in lock step", fmt.Sprintf("%d accumulation site(s), each adds a term and its weight together", len(sumBlocks)), bad+": the mean is taken over a different set of members than the sum")
+	}
+	if n < 6 {
+		c.Errorf("only %d centroid routines with an XY accumulator found, expected >= 6", n)
+	}
+}
+
+// isLoopCounter: the sum feeds a phi that is compared in a loop condition.
+func isLoopCounter(x *ssa.BinOp) bool {
+	for _, r := range *x.Referrers() {
+		if p, ok := r.(*ssa.Phi); ok {
+			for _, rr := range *p.Referrers() {
+				if bo, ok := rr.(*ssa.BinOp); ok && (bo.Op == token.LSS || bo.Op == token.LEQ || bo.Op == token.GTR || bo.Op == token.GEQ || bo.Op == token.NEQ) {
+					for _, r3 := range *bo.Referrers() {
+						if _, isIf := r3.(*ssa.If); isIf {
+							return true
+						}
+					}
+				}
+			}
+		}
+	}
+	return false
+}
+
+func init() {
+	register(&Rule{
+		ID:    "C15.topdim",
+		Props: []string{"C15", "C20"},
+		Doc:   "PointOnSurface of a collection lies on a member of the highest dimension: GeometryCollection.PointOnSurface interpreted with its traversals driven over 3 modelled leaves of every dimension/emptiness combination and order offers as candidates (nearest.consider) every non-empty leaf whose dimension is the maximum over the non-empty leaves, and no non-empty leaf of a lower dimension — whatever the order of the members",
+		Floor: 1,
+		Run:   runC15Topdim,
+	})
+}
+
+func runC15Topdim(c *Ctx) {
+	f := c.P.Func("geom.(GeometryCollection).PointOnSurface")
+	if f == nil {
+		c.Errorf("anchor geom.(GeometryCollection).PointOnSurface does not resolve")
+		return
+	}
+	problem, undec := "", ""
+	models := 0
+	const nl = 3
+	for mask := 0; mask < 27*8 && problem == "" && undec == ""; mask++ {
+		var dim [nl]int
+		var empty [nl]bool
+		mm := mask
+		for i := 0; i < nl; i++ {
+			dim[i] = mm % 3
+			mm /= 3
+		}
+		for i := 0; i < nl; i++ {
+			empty[i] = mm&1 != 0
+			mm >>= 1
+		}
+		models++
+		m := &Model{Num: map[string]float64{}, Bool: map[string]bool{}, Missing: map[string]bool{}}
+		it := &k4interp{p: c.P, m: m, mem: map[string]k4val{}, inline: func(g *ssa.Function) bool { return FuncName(g) == "geom.maxInt" }}
+		considered := map[int]bool{}
+		var hookErr error
+		it.onOpaque = func(name string, args []k4val) {
+			switch {
+			case strings.HasSuffix(name, ").walk") && len(args) == 2 && args[1].kind == 7:
+				fnv, _ := args[1].v.(*ssa.Function)
+				if fnv == nil {
+					return
+				}
+				var fvs []k4val
+				if args[1].s != "" {
+					for _, k := range strings.Split(args[1].s, "\x00") {
+						fvs = append(fvs, k4val{kind: 3, s: k})
+					}
+				}
+				for i := 0; i < nl; i++ {
+					if _, err := it.call(fnv, []k4val{{kind: 3, s: fmt.Sprintf("LEAF%d", i)}}, fvs); err != nil && hookErr == nil {
+						hookErr = err
+					}
+				}
+			case strings.HasSuffix(name, ").consider"):
+				for _, a := range args {
+					for i := 0; i < nl; i++ {
+						if strings.Contains(a.String(), fmt.Sprintf("LEAF%d", i)) {
+							considered[i] = true
+						}
+					}
+				}
+			}
+		}
+		it.answer = func(key string, isBool bool) (k4val, bool) {
+			for i := 0; i < nl; i++ {
+				lf := fmt.Sprintf("(LEAF%d)", i)
+				if isBool && key == "geom.(Geometry).IsEmpty"+lf {
+					return k4val{kind: 1, b: empty[i]}, true
+				}
+				if !isBool && key == "geom.(Geometry).Dimension"+lf {
+					return k4val{kind: 2, f: float64(dim[i])}, true
+				}
+			}
+			return k4val{}, false
+		}
+		if _, err := it.call(f, []k4val{{kind: 3, s: "$0"}}, nil); err != nil || hookErr != nil {
+			undec = fmt.Sprintf("%v %v %s", err, hookErr, missingList(m))
+			break
+		}
+		maxDim := 0
+		for i := 0; i < nl; i++ {
+			if !empty[i] && dim[i] > maxDim {
+				maxDim = dim[i]
+			}
+		}
+		for i := 0; i < nl; i++ {
+			if empty[i] {
+				continue
+			}
+			desc := fmt.Sprintf("leaves (dimension, empty) = (%d,%v) (%d,%v) (%d,%v)", dim[0], empty[0], dim[1], empty[1], dim[2], empty[2])
+			if dim[i] == maxDim && !considered[i] {
+				problem = fmt.Sprintf("for %s leaf %d has the highest dimension but is not offered as a candidate", desc, i)
+			}
+			if dim[i] < maxDim && considered[i] {
+				problem = fmt.Sprintf("for %s the non-empty leaf %d of dimension %d is offered as a candidate although a member of dimension %d exists: the result can lie off every highest-dimension member", desc, i, dim[i], maxDim)
+			}
+		}
+	}
+	reportK4(c, f, "candidates of the nearest-point search", undec, problem, fmt.Sprintf("exactly the non-empty leaves of the highest dimension (empty ones aside), in all %d models of 3 leaves", models))
+}
+
+func init() {
+	register(&Rule{
+		ID:    "C09.probe",
+		Props: []string{"C09", "C02"},
+		Doc:   "a single vertex stands in for a whole line only after the whole boundary has been excluded: in the Intersects kernels, a point-in-polygon test whose point is a control point of the other operand (StartPoint of a line or ring) is dominated by a negative line/line intersection test against the complete Boundary() of that same polygon or multipolygon (every ring, holes included) — otherwise a line that starts in a hole and crosses only the hole ring, or that crosses the shell, is misjudged from its first vertex",
+		Floor: 3,
+		Run:   runC09Probe,
+	})
+}
+
+func runC09Probe(c *Ctx) {
+	n := 0
+	for _, f := range c.P.Funcs {
+		if pkgOf(f) != "geom" || !strings.HasPrefix(f.Name(), "hasIntersection") {
+			continue
+		}
+		fn := FuncName(f)
+		eachCall(f, func(ci ssa.CallInstruction) {
+			name := calleeName(ci)
+			if name != "geom.hasIntersectionPointWithPolygon" && name != "geom.hasIntersectionPointWithMultiPolygon" {
+				return
+			}
+			args := ci.Common().Args
+			// is the point a vertex probe (…StartPoint())?
+			probe := dependsOn(args[0], func(v ssa.Value) bool {
+				call, ok := v.(*ssa.Call)
+				if !ok {
+					return false
+				}
+				cal := staticCallee(call)
+				return cal != nil && (cal.Name() == "StartPoint" || cal.Name() == "EndPoint" || cal.Name() == "PointN" && false)
+			})
+			if !probe {
+				return
+			}
+			n++
+			poly, _ := accessPath(args[1])
+			ok := false
+			for _, g := range guardsAt(ci) {
+				call, isCall := g.Cond.(*ssa.Call)
+				if !isCall || g.Truth || !strings.HasPrefix(calleeName(call), "geom.hasIntersectionMultiLineStringWithMultiLineString") {
+					continue
+				}
+				for _, a := range call.Call.Args {
+					if dependsOn(a, func(v ssa.Value) bool {
+						bc, ok := v.(*ssa.Call)
+						if !ok {
+							return false
+						}
+						cal := staticCallee(bc)
+						if cal == nil || cal.Name() != "Boundary" {
+							return false
+						}
+						rs, _ := accessPath(bc.Call.Args[0])
+						return rs == poly
+					}) {
+						ok = true
+					}
+				}
+			}
+			c.Check(ok, ci.Pos(), fn, "vertex probe against "+trunc(poly), "dominated by `no line of the other operand meets "+trunc(poly)+".Boundary()`", "a start vertex is tested against "+poly+" without a dominating negative intersection test against the complete boundary of "+poly+" (all rings): the probe's verdict does not extend to the rest of the line")
+		})
+	}
+	if n < 3 {
+		c.Errorf("only %d vertex probes found in the Intersects kernels, expected 3", n)
+	}
+}
+
+func init() {
+	register(&Rule{
+		ID:    "C05.append",
+		Props: []string{"C05", "C13", "C10", "C06"},
+		Doc:   "append-style helpers return their destination: a function that takes a slice and returns the same slice type, and on some path returns append(thatParam, …) (or passes it to another append-style function), returns a value derived from that parameter on every path — a `return nil` / fresh slice on an early exit (empty input, error case) silently discards everything accumulated by the caller so far (AppendWKT/AppendWKB prefixes, collected hull points, cut lists)",
+		Floor: 30,
+		Run:   runC05Append,
+	})
+}
+
+func runC05Append(c *Ctx) {
+	// fixpoint: append-style functions and their destination parameter
+	dstOf := map[*ssa.Function]int{}
+	type cand struct {
+		f   *ssa.Function
+		idx int
+	}
+	var cands []cand
+	for _, f := range c.P.Funcs {
+		if !c.P.InRepo(f) || f.Signature.Results().Len() != 1 {
+			continue
+		}
+		rt := f.Signature.Results().At(0).Type()
+		if _, ok := rt.Underlying().(*types.Slice); !ok {
+			continue
+		}
+		for i, p := range f.Params {
+			if types.Identical(p.Type(), rt) {
+				cands = append(cands, cand{f, i})
+				break // the first parameter of the result type is the destination
+			}
+		}
+	}
+	derived := func(f *ssa.Function, idx int, v ssa.Value) bool {
+		par := f.Params[idx]
+		seen := map[ssa.Value]bool{}
+		var rec func(v ssa.Value, d int) bool
+		rec = func(v ssa.Value, d int) bool {
+			if v == ssa.Value(par) {
+				return true
+			}
+			if d > 12 {
+				return false
+			}
+			if _, isPhi := v.(*ssa.Phi); isPhi && seen[v] {
+				return true // a loop-carried accumulator met again: derived if its other edges are
+			}
+			if seen[v] {
+				// re-evaluation of a shared subexpression
+			}
+			seen[v] = true
+			switch x := v.(type) {
+			case *ssa.Phi:
+				for _, e := range x.Edges {
+					if !rec(e, d+1) {
+						return false
+					}
+				}
+				return len(x.Edges) > 0
+			case *ssa.Slice:
+				return rec(x.X, d+1)
+			case *ssa.UnOp:
+				if x.Op == token.MUL {
+					if al, ok := x.X.(*ssa.Alloc); ok {
+						okAll, any := true, false
+						for _, r := range *al.Referrers() {
+							if st, ok := r.(*ssa.Store); ok && st.Addr == ssa.Value(al) {
+								any = true
+								if !rec(st.Val, d+1) {
+									okAll = false
+								}
+							}
+						}
+						return any && okAll
+					}
+				}
+			case *ssa.Call:
+				if b, ok := x.Call.Value.(*ssa.Builtin); ok && b.Name() == "append" {
+					return rec(x.Call.Args[0], d+1)
+				}
+				if cal := staticCallee(x); cal != nil {
+					if k, ok := dstOf[cal]; ok {
+						args := x.Call.Args
+						if k < len(args) {
+							return rec(args[k], d+1)
+						}
+					}
+					switch extName(cal) {
+					case "strconv.AppendFloat", "strconv.AppendInt", "strconv.AppendUint", "strconv.AppendQuote", "encoding/binary.AppendUvarint", "encoding/binary.AppendVarint", "fmt.Appendf", "fmt.Append":
+						return rec(x.Call.Args[0], d+1)
+					}
+				}
+				// method call through an interface named Append…: treat the first slice argument as destination
+				if x.Call.IsInvoke() && strings.HasPrefix(x.Call.Method.Name(), "Append") && len(x.Call.Args) > 0 {
+					return rec(x.Call.Args[0], d+1)
+				}
+			}
+			return false
+		}
+		return rec(v, 0)
+	}
+	// greatest fixpoint: start from "every candidate is append-style" and drop the
+	// candidates none of whose returns extends the destination
+	for _, cd := range cands {
+		dstOf[cd.f] = cd.idx
+	}
+	for changed := true; changed; {
+		changed = false
+		for _, cd := range cands {
+			if _, in := dstOf[cd.f]; !in {
+				continue
+			}
+			extends := false
+			for _, r := range returnsOf(cd.f) {
+				v := r.Results[0]
+				if v != ssa.Value(cd.f.Params[cd.idx]) && derived(cd.f, cd.idx, v) {
+					extends = true
+				}
+			}
+			if !extends {
+				delete(dstOf, cd.f)
+				changed = true
+			}
+		}
+	}
+	n := 0
+	var fs []*ssa.Function
+	for f := range dstOf {
+		fs = append(fs, f)
+	}
+	sort.Slice(fs, func(i, j int) bool { return FuncName(fs[i]) < FuncName(fs[j]) })
+	for _, f := range fs {
+		idx := dstOf[f]
+		n++
+		bad := ""
+		for _, r := range returnsOf(f) {
+			if !derived(f, idx, r.Results[0]) {
+				vs, _ := accessPath(r.Results[0])
+				bad = "returns " + trunc(vs) + " at " + c.P.Pos(r.Pos()) + ", which is not built from the destination parameter " + f.Params[idx].Name()
+			}
+		}
+		c.Check(bad == "", f.Pos(), FuncName(f), "append-style result", "every return is the destination (possibly extended)", bad+": what the caller had accumulated is lost on that path")
+	}
+	if n < 30 {
+		c.Errorf("only %d append-style functions found, expected >= 30", n)
+	}
+}
